@@ -392,8 +392,12 @@ func (n NaturalLanguageValues) MarshalJSON() ([]byte, error) {
 	b.Write([]byte{'{'})
 	empty := true
 	for _, val := range n {
-		if len(val.Ref) == 0 || len(val.Value) == 0 {
+		if len(val.Value) == 0 {
 			continue
+		}
+		if len(val.Ref) == 0 || val.Ref == NilLangRef {
+			// NOTE(marius): a language map needs a key for every value, "und" is the BCP47 tag for an undetermined language
+			val.Ref = "und"
 		}
 		if !empty {
 			b.Write([]byte{','})
